@@ -147,7 +147,8 @@ theorem hwp_ub (u : UB) (h : Handle) (w) (Q : Bool → Except Code α × Handle 
     checked on the same handle -/
 theorem nr_tx_at (d : List UInt8) (h : Handle)
     (hm : ¬(h.activeModem ≠ Gen.SX127x_MODULATION_FSK ∧ h.activeModem ≠ Gen.SX127x_MODULATION_OOK))
-    (hf : h.format = Gen.SX127X_FIXED) (hl : ¬ d.length > Gen.FIFO_SIZE_FSK) (w : Bool) :
+    (hf : h.format = Gen.SX127X_FIXED) (hl : ¬ d.length > Gen.FIFO_SIZE_FSK) (hcap : ¬ d.length > h.packet.length)
+    (w : Bool) :
     (fskOokTxSetForTransmission d h).hwp w (fun _ rh => ∀ c, rh.1 = .error c → ¬isReject c) := by
   unfold fskOokTxSetForTransmission checkFskOok
   simp only [hwp_bind', hwp_getH, hwp_pure, if_neg hm]
@@ -158,7 +159,9 @@ theorem nr_tx_at (d : List UInt8) (h : Handle)
     have : Gen.FIFO_SIZE_FSK ≤ Gen.MAX_PACKET_SIZE_FSK_FIXED := by decide
     omega
   have h3 : ¬h.format = Gen.SX127X_VARIABLE := by rw [hf]; decide
-  rw [if_neg h1, if_neg h2, if_neg h3]
+  have h4 : ¬(d.length + (if h.format = Gen.SX127X_VARIABLE then 1 else 0) > h.packet.length) := by
+    rw [if_neg h3]; omega
+  rw [if_neg h1, if_neg h2, if_neg h4, if_neg h3]
   have : NoRej (do packetCopy 0 d; fskOokTxWithRemaining (UInt16.ofNat d.length)) := by norej0
   exact this.q h w
 
@@ -175,9 +178,11 @@ theorem rc_fskOokTxStartBeacon (d : List UInt8) (i : Nat) : RC (fskOokTxStartBea
   by_cases hf : h.format ≠ Gen.SX127X_FIXED
   · rw [if_pos hf, hwp_fail]; exact fun _ _ _ => ⟨rfl, rfl⟩
   rw [if_neg hf]
-  by_cases hl : d.length > Gen.FIFO_SIZE_FSK
+  by_cases hl : d.length > Gen.FIFO_SIZE_FSK ∨ d.length > h.packet.length
   · rw [if_pos hl, hwp_fail]; exact fun _ _ _ => ⟨rfl, rfl⟩
   rw [if_neg hl]
+  have hcap : ¬d.length > h.packet.length := fun x => hl (Or.inr x)
+  have hl : ¬d.length > Gen.FIFO_SIZE_FSK := fun x => hl (Or.inl x)
   cases beaconTimers i with
   | none => dsimp only; rw [hwp_ub]; trivial
   | some t =>
@@ -185,7 +190,7 @@ theorem rc_fskOokTxStartBeacon (d : List UInt8) (i : Nat) : RC (fskOokTxStartBea
     dsimp only
     iterate 5 (rw [hwp_bind', hwp_swrite]; dsimp only)
     rw [hwp_bind']
-    refine Prog.hwp_mono _ _ _ _ ?_ (nr_tx_at d h hm (by simpa using hf) hl true)
+    refine Prog.hwp_mono _ _ _ _ ?_ (nr_tx_at d h hm (by simpa using hf) hl hcap true)
     intro w' ⟨r, h'⟩ hq
     cases r with
     | error c => exact fun c' e hr => absurd hr (hq c' e)
